@@ -528,6 +528,15 @@ def derive_hosts(rules, only=None):
             push(("y", "x") + labels)
             if exc:
                 push(labels[1:])
+                # labels that merely resemble the exception label (its fragments,
+                # and the label with one more character) are ordinary labels
+                e, parent = labels[0], labels[1:]
+                for i in range(len(e)):
+                    for j in range(i + 1, len(e) + 1):
+                        if e[i:j] != e:
+                            push((e[i:j],) + parent)
+                push((e + "x",) + parent)
+                push(("x" + e,) + parent)
         for i in range(1, len(labels)):
             push(labels[i:])
     return out
